@@ -27,7 +27,7 @@ impl Prop for C06 {
         serde_json::to_value(decode_rcase(choices, tier, 8, 10, 3)).unwrap()
     }
     fn rule(&self) -> String {
-        "Grammars/inputs/costs as C07 (inputs <=10 lexemes, 1-3 edits, <=5 tokens). Oracle: at every error (configuration taken from the reference driver) an exhaustive uniform-cost enumeration over {Insert t != end-of-input, Delete, Shift} under replay semantics, canonical form (no insert directly after a delete), success = three trailing shifts or acceptance, no successful proper prefix; node budget 60000 (exceeded => that error is not judged). Reported list: equal costs = least cost, set = all minimum-cost successes of maximal parse distance with trailing shifts stripped, no duplicates, no trailing shift, no end-of-input insert, %avoid_insert sequences last, lengths non-decreasing within a group. Evaluation = one (grammar,input,costs). Non-trivial: >=2 expected sequences, or least cost >=2, or non-uniform costs with a multi-step sequence, or an %avoid_insert token in the expected set; distinct by hash(grammar,input,costs).".into()
+        "Grammars/inputs/costs as C07 (inputs <=10 lexemes, 1-3 edits, <=5 tokens). Oracle: at every error (configuration taken from the reference driver) an exhaustive uniform-cost enumeration over {Insert t != end-of-input, Delete, Shift} under replay semantics, canonical form (no insert directly after a delete), success = three trailing shifts or acceptance, no successful proper prefix; node budget 60000 (exceeded => that error is not judged). Reported list: equal costs = least cost, set = all minimum-cost successes of maximal parse distance with trailing shifts stripped, no duplicates, no trailing shift, no end-of-input insert, %avoid_insert sequences last, lengths non-decreasing within a group; an error reported without any sequence although the search was not cut short must have no repair of cost <= 3x the cheapest token in the reference enumeration. Evaluation = one (grammar,input,costs). Non-trivial: >=2 expected sequences, or least cost >=2, or non-uniform costs with a multi-step sequence, or an %avoid_insert token in the expected set; distinct by hash(grammar,input,costs).".into()
     }
     fn assumptions(&self) -> Vec<String> {
         vec![
